@@ -577,3 +577,17 @@ package k8s
 //@   loop 1:
 //@     invariant ranges: piecesOK(res)
 //@     invariant exact: peersCovered(res, rulePeers, rangeindex + 1)
+
+//@ func (*NetworkPolicy).GetReferencedIPBlocks
+//@   requires np != nil && np.NetworkPolicy != nil
+//@   modifies *
+//@   ensures [C05,C01] ranges: res1 == nil ==> piecesOK(res0)
+//@   ensures [C01,C05] ingress: res1 == nil ==> (forall k int :: {np.Spec.Ingress[k]} (0 <= k && k < len(np.Spec.Ingress)) ==> peersCovered(res0, np.Spec.Ingress[k].From, len(np.Spec.Ingress[k].From)))
+//@   ensures [C01,C05] egress: res1 == nil ==> (forall k int :: {np.Spec.Egress[k]} (0 <= k && k < len(np.Spec.Egress)) ==> peersCovered(res0, np.Spec.Egress[k].To, len(np.Spec.Egress[k].To)))
+//@   loop 1:
+//@     invariant ranges: piecesOK(res)
+//@     invariant ingress: forall k int :: {np.Spec.Ingress[k]} (0 <= k && k <= rangeindex1) ==> peersCovered(res, np.Spec.Ingress[k].From, len(np.Spec.Ingress[k].From))
+//@   loop 2:
+//@     invariant ranges: piecesOK(res)
+//@     invariant ingress: forall k int :: {np.Spec.Ingress[k]} (0 <= k && k < len(np.Spec.Ingress)) ==> peersCovered(res, np.Spec.Ingress[k].From, len(np.Spec.Ingress[k].From))
+//@     invariant egress: forall k int :: {np.Spec.Egress[k]} (0 <= k && k <= rangeindex2) ==> peersCovered(res, np.Spec.Egress[k].To, len(np.Spec.Egress[k].To))
